@@ -514,6 +514,27 @@ func (w *Walker) cmpRanks(op token.Token, x, y ssa.Value) Tri {
 			}
 		}
 	}
+	// math.Abs(x) OP M, for a specification with a symmetric pair of bounds M and m = -M:
+	// |x| >= M  ==  x >= M || x <= m, |x| < M  ==  x < M && x > m (and the same with the non-strict forms)
+	if tx.Kind == "call" && tx.Name == "math.Abs" && len(tx.Args) == 1 {
+		if ry, oky := w.env.role(ty); oky && ry == "M" {
+			if rx, okx := w.env.role(tx.Args[0]); okx {
+				if _, hasLow := w.env.Rank["m"]; hasLow && !w.env.Flags["nan:"+rx] {
+					a, hi, lo := w.env.Rank[rx], w.env.Rank["M"], w.env.Rank["m"]
+					switch op {
+					case token.GEQ:
+						return tri(a >= hi || a <= lo)
+					case token.GTR:
+						return tri(a > hi || a < lo)
+					case token.LSS:
+						return tri(a < hi && a > lo)
+					case token.LEQ:
+						return tri(a <= hi && a >= lo)
+					}
+				}
+			}
+		}
+	}
 	rx, okx := w.env.role(tx)
 	ry, oky := w.env.role(ty)
 	if !okx || !oky {
